@@ -63,6 +63,8 @@ pub struct HarnessPhy {
     pub tx_started: Vec<usize>,
     pub contract: Vec<String>,
     pub rx_calls: u32,
+    /// Bytes that became visible to the station since the world last cleared the counter.
+    pub new_rx_bytes: usize,
     /// Statistics over the PHY's life.
     pub stat_multi_in_buffer: u64,
     pub stat_discards: u64,
@@ -100,6 +102,7 @@ impl HarnessPhy {
             tx_started: Vec::new(),
             contract: Vec::new(),
             rx_calls: 0,
+            new_rx_bytes: 0,
             stat_multi_in_buffer: 0,
             stat_discards: 0,
             stat_consumed: 0,
@@ -152,6 +155,7 @@ impl HarnessPhy {
                     tx.start + (self.next_byte as u64 + 1) * CHAR
                 };
                 if self.visible_at(avail) <= now {
+                    self.new_rx_bytes += 1;
                     self.rx.push(tx.seen[self.next_byte]);
                     self.rx_src.push(self.next_tx as u32);
                     self.next_byte += 1;
